@@ -125,6 +125,41 @@ def isectCC (la lb : Loc) (ms fs : Bool) : R Location := do
     let c ← mkCompoundLoc bs la.strand
     optimizeLoc true c
 
+/-! #### the cgranges branch of `_intersection_compound_interval`
+
+  Not executed in this sandbox (cgranges is not installed), modelled from the source and from the documented
+  semantics of `cgranges.overlap(ctg, st, en)`: it reports the stored intervals `[s, e)` with `s < en ∧ st < e`.
+  `Proofs/AlgCgranges.lean` proves the branch equal to the pairwise branch when no block is zero-length, and shows
+  that with a zero-length block strictly inside a block of the other operand it raises EmptyLocationException
+  (the tree reports the pair, `SingleInterval.intersection` answers EmptyLocation, whose `.start` raises). -/
+
+/-- `tree.overlap("", other.start, other.end)` for one stored block `x` and one query block `y` -/
+def cgrOverlaps (x y : Blk) : Bool := decide (x.1 < y.2) && decide (y.1 < x.2)
+
+/-- `CompoundInterval._from_single_intervals_no_validation` on a list of intersection results -/
+def fromResults (rs : List Location) (st : Strand) : R Loc := do
+  let bs ← rs.mapM (fun r => match r with
+    | .single b _ => (pure b : R Blk)
+    | .empty => throw .EmptyLocation          -- `EmptyLocation.start`
+    | .compound _ => throw .TypeError)        -- not produced by single ∩ single
+  mkCompoundLoc bs st
+
+/-- the `else:` branch (HAS_CGRANGES) of `_intersection_compound_interval` -/
+def isectCCcgrTail (la lb : Loc) (ms : Bool) : R Location := do
+  let pairs := lb.blocks.flatMap (fun y => (la.blocks.filter (fun x => cgrOverlaps x y)).map (fun x => (x, y)))
+  let rs ← pairs.mapM (fun p => isectSS p.1 la.strand p.2 lb.strand ms)
+  let c ← fromResults rs la.strand
+  optimizeLoc true c
+
+/-- `CompoundInterval.intersection(other: CompoundInterval)` when cgranges is installed -/
+def isectCCcgr (la lb : Loc) (ms fs : Bool) : R Location := do
+  if !(← hasOverlap (.compound la) (.compound lb) ms fs) then pure .empty
+  else if fs then do
+    let f ← fullSpan la
+    isectSC f la.strand lb ms true
+  else if ms ∧ la.strand ≠ lb.strand then pure .empty
+  else isectCCcgrTail la lb ms
+
 /-- `intersection(other, match_strand, full_span)` for operands whose parents passed the gate -/
 def intersection (a b : Location) (ms fs : Bool) : R Location :=
   match a, b with
